@@ -201,7 +201,39 @@ def r12_2(ctx):
             facts = guards.path_conditions(st, stop=w)
             ok = any(t.replace(' ', '') in ('r<=1', 'r<=1.0', 'r<1') and pol for (t, pol, _n) in facts)
             ctx.decide('R12.2', fi.qual, src(st) + ' under r <= 1', ok, st, 'a step is accepted only if the scaled error test passes')
-    ctx.floor('R12.2', 'acceptance statements', n, 5)
+    ctx.floor('R12.2', 'acceptance statements', n, 4)
+    # R12.8: state carried into the next stepper call changes only on acceptance.  Every name passed to the stepper
+    # (except the step size, which the controller owns, and the cache dict) that is assigned inside the loop must be
+    # assigned under the acceptance guard; a trial result must not overwrite it.
+    calls = [c for c in ast.walk(w) if isinstance(c, ast.Call) and src(c.func) == 'stepper']
+    if not calls:
+        raise AnchorMissing('R12.8: stepper call in the adaptive loop')
+    carried = set()
+    for a in list(calls[0].args) + [k.value for k in calls[0].keywords]:
+        if isinstance(a, ast.Name):
+            carried.add(a.id)
+    carried -= {'tau', 'data', 'M', 'F', 'J'}
+    carried |= {'t'}
+    n8 = 0
+    for st in ast.walk(w):
+        targets = []
+        if isinstance(st, ast.Assign):
+            for t in st.targets:
+                targets += [x for x in (t.elts if isinstance(t, ast.Tuple) else [t])]
+        elif isinstance(st, ast.AugAssign):
+            targets = [st.target]
+        for t in targets:
+            if isinstance(t, ast.Name) and t.id in carried:
+                n8 += 1
+                facts = guards.path_conditions(st, stop=w)
+                acc = any(tt.replace(' ', '') in ('r<=1', 'r<=1.0', 'r<1') and pol for (tt, pol, _n) in facts)
+                if acc:
+                    ctx.met('R12.8', fi.qual, '%s assigned in: %s' % (t.id, src(st)[:80]), st, 'loop-carried state changes only on an accepted step')
+                else:
+                    ctx.violated('R12.8', fi.qual, '%s assigned in: %s' % (t.id, src(st)[:80]), st,
+                                 '%s is an input of the next stepper call but is overwritten by a trial step before the error test: after a rejected '
+                                 'step the retry starts from data that belongs to the rejected state' % t.id)
+    ctx.floor('R12.8', 'assignments to loop-carried state', n8, 3)
     # paired appends
     ap = [src(c.func) for c in ast.walk(w) if isinstance(c, ast.Call) and src(c.func) in ('times.append', 'solutions.append')]
     ctx.decide('R12.2', fi.qual, 'appends: ' + ', '.join(ap), sorted(ap) == ['solutions.append', 'times.append'], w, 'one state per time')
